@@ -23,7 +23,7 @@ import shlex
 from vlib import VERIF
 
 MODULE = "Fv.Props.C16Conc"            # imports Fv.Props.CacheConc
-EXTRA_MODULES = ("Fv.Props.C11Conc",)
+EXTRA_MODULES = ("Fv.Props.C11Conc", "Fv.Props.C13Conc")
 
 
 def _read(name):
